@@ -58,7 +58,7 @@ m = {
  "engines": [{"name": "gosym", "path": "/verif/engine", "serves_properties": sorted(claimed), "kind_free_text": "bounded symbolic executor for go/ssa (x/tools v0.29.0) with z3 -in back end, native replay of counterexamples via go test -overlay"}],
  "checks": checks,
  "not_applicable": [{"property_id": k, "reason": v} for k, v in sorted(na.items())],
- "notes": "All checks use one technique: symbolic execution of the real functions' SSA with solver-decided path conditions and assertions. Exit codes: 0 held; 1 VIOLATION (replayed natively); 2 CHECK-ERROR / ENGINE-DISAGREEMENT; 3 VACUOUS; 4 INCOMPLETE (a path unsupported/inconclusive/over budget). Known findings: /verif/known_findings.json (status fixed: repaired by the named commit, suppresses nothing; status known: open, the check prints KNOWN-FINDING for exactly that signature and exits 0; one open entry, for C10, see DESIGN 10.3). Seeded changes and which check catches which: /verif/seeded, DESIGN 11.",
+ "notes": "All checks use one technique: symbolic execution of the real functions' SSA with solver-decided path conditions and assertions. Exit codes: 0 held; 1 VIOLATION (replayed natively); 2 CHECK-ERROR / ENGINE-DISAGREEMENT; 3 VACUOUS; 4 INCOMPLETE (a path unsupported/inconclusive/over budget). Known findings: /verif/known_findings.json (status fixed: repaired by the named commit, suppresses nothing; status known: open, the check prints KNOWN-FINDING for exactly that signature and exits 0; no open entry at present, see DESIGN 10.3). Seeded changes and which check catches which: /verif/seeded, DESIGN 11.",
 }
 json.dump(m, open(os.path.join(os.path.dirname(os.path.abspath(__file__)), "MANIFEST.json"), "w"), indent=1)
 print("MANIFEST.json: %d checks, %d not_applicable" % (len(checks), len(na)))
